@@ -198,6 +198,34 @@ inline void run_kernel(const char* kernel, MA&& mka, MB&& mkb, F&& angle_ab, G&&
   if (th)
     for (size_t i = 0; i < G2.size(); i += 5)
       for (size_t j = 0; j < G2.size(); j += 3) invariance(G2[i], 1.1L, G2[j], 0.7L, 0);
+  // (iv) components of very different size inside one vector (still |a|^2 finite): a = (1.25*2^r, -+1.5, 1.75*2^-r) in every
+  // rotation of the axes, against the unit grid, itself, its opposite and a vector that is large where a is small
+  {
+    const int huge = std::numeric_limits<T>::max_exponent / 2 - 6;
+    for (int r : {p + 3, huge / 2, huge})
+      for (int rot = 0; rot < D; rot++)
+        for (int sg : {1, -1}) {
+          T ca[3] = {0, 0, 0}, cm[3] = {0, 0, 0}, cw[3] = {0, 0, 0};
+          const T big = (T)std::ldexp(1.25L, r), mid = (T)(sg * -1.5L), small = (T)std::ldexp(1.75L, -r);
+          ca[rot % D] = big;
+          ca[(rot + 1) % D] = mid;
+          if (D == 3) ca[(rot + 2) % D] = small;
+          for (int i = 0; i < 3; i++) cm[i] = -ca[i];
+          cw[rot % D] = D == 3 ? small : mid;
+          cw[(rot + 1) % D] = D == 3 ? mid : big;
+          if (D == 3) cw[(rot + 2) % D] = big;
+          both(ca, ca, 1);
+          both(ca, cm, 2);
+          both(ca, cw, 0);
+          both(cw, ca, 0);
+          for (auto& vb : G1) {
+            T cb[3];
+            scaled(vb, 1, 0, cb);
+            both(ca, cb, 0);
+            both(cb, ca, 0);
+          }
+        }
+  }
   vf::stat("nontrivial_angles", nontrivial);
   vf::stat("kernel_instances");
 }
